@@ -49,6 +49,7 @@ func main() {
 			"all read or all written in inner, then written in mid and in the outer frame, inner called inside mid, after mid returned and after the outer method returned; " +
 			"every program run with the default stack and, when the " +
 			"closure-free growth canary passes, again with a 64-slot initial value stack and recursion hooks after every closure creation and at the start of every closure body; " +
+			"plus the loop-exit family (6 labelled loop kinds capturing the loop variable or a body local x 6 ways of leaving the loop: normal end, break, break[label], break[label] / continue[label] from a nested for-in or while loop; closures called in the frame and after it returned; differential oracle: unrelated locals declared after the loop, where they reuse its slots, or before it, must not change the output); " +
 			"oracle: stdout equals the reference interpreter's; terms are distinct (no repetition); every term is non-trivial (it calls a closure that captured a variable)",
 		Assume: []string{
 			"the reference interpreter of harness/mini encodes the intended semantics (one box per declared variable, shared by reference; a fresh box per loop iteration for variables declared in the body and for the for-in variable)",
@@ -170,6 +171,7 @@ func run(c *engine.Ctx) {
 		}
 		r.Outcome("canary ok")
 	})
+	loopExitCases(c)
 	for _, mode := range []string{"default", "growth"} {
 		for _, l := range layers(c.Thorough) {
 			for n := l.from; n <= l.to; n++ {
